@@ -1,5 +1,13 @@
 //! Types of the translated subset and integer-literal unification.
+use std::cell::RefCell;
+use std::collections::HashMap;
 use std::fmt;
+
+thread_local! {
+    /// named types that take the unit's opaque types as parameters: name -> argument text ("DecodedMap")
+    pub static STRUCT_APP: RefCell<HashMap<String, String>> = RefCell::new(HashMap::new());
+}
+
 
 #[derive(Clone, Copy, PartialEq, Eq, Debug, Hash)]
 pub enum IntTy {
@@ -277,7 +285,10 @@ pub fn lean_ty(t: &Ty) -> String {
         Ty::Tuple(v) if v.is_empty() => "Unit".into(),
         Ty::Tuple(v) => format!("({})", v.iter().map(lean_ty).collect::<Vec<_>>().join(" × ")),
         Ty::Unit => "Unit".into(),
-        Ty::Struct(n) => n.clone(),
+        Ty::Struct(n) => match STRUCT_APP.with(|a| a.borrow().get(n).cloned()) {
+            Some(args) => format!("({} {})", n, args),
+            None => n.clone(),
+        },
         Ty::Error => "Err".into(),
         Ty::Never => "Unit".into(),
         Ty::Map(k, v) => format!("(List ({} × {}))", lean_ty(k), lean_ty(v)),
